@@ -55,7 +55,7 @@ func init() {
 			Why: "the key stream is applied to the plaintext and written behind the IV of the returned buffer",
 			Req: []string{"def($stream, cipher.NewCFBEncrypter(_, _))", "def($ct, make(_, aes.BlockSize + len($plainText)))"}},
 		{ID: "E8.aes.encrypt.returns-ciphertext", Fn: "crypto.EncryptBytesAES", P: []string{"plainText", "key"}, Kind: "ret ok", Pat: "ret($ct, nil)", Max: 1,
-			Req: []string{"def($ct, make(_, aes.BlockSize + len($plainText)))", "called(_.XORKeyStream($ct[aes.BlockSize:], $plainText))"}},
+			Req: []string{"def($ct, make(_, aes.BlockSize + len($plainText)))", "called(_.XORKeyStream(_, $plainText))"}},
 		{ID: "E8.space-delimited.split-text", Fn: "oidc.(*SpaceDelimitedArray).UnmarshalText", P: []string{"s", "text"}, Kind: "call", Pat: `strings.Split(conv(string, $text), " ")`, Min: 1, Max: 1},
 		{ID: "E8.locales.split-text", Fn: "oidc.(*Locales).UnmarshalText", P: []string{"l", "text"}, Kind: "call", Pat: `oidc.ParseLocales(strings.Split(conv(string, $text), " "))`, Min: 1, Max: 1},
 		{ID: "E8.locales.split-json", Fn: "oidc.(*Locales).UnmarshalJSON", P: []string{"l", "data"}, Kind: "call", Pat: `oidc.ParseLocales(strings.Split($v, " "))`, Min: 1, Max: 1,
